@@ -3,6 +3,7 @@ package main
 import (
 	"verif/engine"
 	_ "verif/harness/c01"
+	_ "verif/harness/c04"
 	_ "verif/harness/c05"
 	_ "verif/harness/c07"
 
